@@ -16,7 +16,7 @@ def tla_str(s):
     return '"%s"' % s
 
 
-def gen_mc(scn, workdir, tag="", fix=True, mut_norecheck=False, view=False, invariants=True, trace_file=None):
+def gen_mc(scn, workdir, tag="", fix=True, mut_norecheck=False, view=False, invariants=True, trace_file=None, inv_list=None):
     """writes MC_PC_<name><tag>.tla/.cfg into workdir; returns (module, cfg)"""
     name = "MC_PC_%s%s" % (scn["name"], tag)
     senders = sorted(scn["senders"])
@@ -43,7 +43,7 @@ def gen_mc(scn, workdir, tag="", fix=True, mut_norecheck=False, view=False, inva
         cfg.append(' TraceFile = "%s"' % trace_file)
         cfg += ["CONSTRAINT HWM", "POSTCONDITION TraceAccepted"]
     if invariants:
-        cfg += ["INVARIANTS"] + [" " + i for i in INVARIANTS]
+        cfg += ["INVARIANTS"] + [" " + i for i in (inv_list or INVARIANTS)]
     if view:
         cfg.append("VIEW View")
     cfg.append("CHECK_DEADLOCK FALSE")
@@ -83,6 +83,40 @@ def node_pcs(label):
             for th, pc in PC_RE.findall(m.group(1)):
                 out[th] = pc
     return out
+
+
+OBS_INVARIANTS = {
+    "C01": ["Serial"],
+    "C02": ["NoDupHandle", "RefusedNever", "OnlySent", "NoLostWakeup", "ExactlyOnce"],
+    "C03": ["SenderFifo", "PriorityPick"],
+    "C05": ["TermOnce", "TermFinal", "ReasonRight", "QuiescentState", "KillKills", "CauseTerminates", "TrapDelivers"],
+}
+CORE_INVARIANTS = {
+    "C01": ["Serial", "OneOwner", "SlotsSuffice"],
+    "C02": ["NoLostWakeup", "ExactlyOnce", "NoDupHandle", "RefusedNever", "HandledWasSent", "SlotsSuffice"],
+    "C03": ["SenderFifo", "SlotsSuffice"],
+    "C05": ["TermOnce", "TermFinal", "ReasonRight", "QuiescentState", "KillKills", "SlotsSuffice"],
+}
+
+
+def gen_obs(scn, workdir, trace_file, invariants, controlled=True, tag="_O"):
+    name = "MC_PO_%s%s" % (scn["name"], tag)
+    senders = sorted(scn["senders"])
+    def ops(s):
+        return "<< " + ", ".join('[q |-> "%s", kind |-> "%s"]' % (o["q"], o["kind"]) for o in scn["senders"][s]) + " >>"
+    opsdef = "[s \\in MC_Senders |-> " + "".join('IF s = "%s" THEN %s ELSE ' % (s, ops(s)) for s in senders) + "<< >>]"
+    mod = ["---- MODULE %s ----" % name, "EXTENDS ProcObs",
+           "MC_Senders == {%s}" % ", ".join(tla_str(s) for s in senders),
+           "MC_Ops == " + opsdef,
+           "MC_Killers == {%s}" % ", ".join(tla_str(k) for k in scn["killers"]), "===="]
+    open(os.path.join(workdir, name + ".tla"), "w").write("\n".join(mod) + "\n")
+    cfg = ["SPECIFICATION Spec", "CONSTANTS", " Senders <- MC_Senders", " Ops <- MC_Ops", " Killers <- MC_Killers",
+           " Trap = %s" % ("TRUE" if scn["trap"] else "FALSE"), ' TraceFile = "%s"' % trace_file,
+           " Controlled = %s" % ("TRUE" if controlled else "FALSE"),
+           " Checks = {%s}" % ", ".join('"%s"' % i for i in invariants),
+           "CONSTRAINT HWM", "POSTCONDITION TraceAccepted", "CHECK_DEADLOCK FALSE"]
+    open(os.path.join(workdir, name + ".cfg"), "w").write("\n".join(cfg) + "\n")
+    return name + ".tla", name + ".cfg"
 
 
 def scn_for_harness(scn):
